@@ -726,9 +726,54 @@ def failed_reuse_case(req):
                              'PermissionError during reuse; the caller catches it',
                     'observed': {'visible_in_the_virtual_view': seen['virtual'],
                                  'on_disk_after_commit': left}, 'evaluations': 1}
-        return {'reproduced': False, 'evaluations': 1, 'note': repr(seen)}
     finally:
         shutil.rmtree(root, ignore_errors=True)
+    # a reused subtree whose build_file raised AFTER a nested output was built (and whose caller
+    # caught the error): the nested output stays reserved -- visible to queries and kept at commit
+    root = scratch()
+    ref = scratch()
+    try:
+        def prog(base):
+            def make_b(b, filename):
+                write(filename, 'b')
+
+            def make_a(b, filename):
+                b.build_file(os.path.join(base, 'out', 'sub', 'b.txt'), 'make_b', make_b)
+                raise ValueError('a.txt cannot be built')
+
+            def gen(b):
+                try:
+                    b.build_file(os.path.join(base, 'out', 'a.txt'), 'make_a', make_a)
+                except ValueError:
+                    return 'a failed'
+                return 'a ok'
+
+            def f(b):
+                status = b.subbuild('gen', gen)
+                out = os.path.join(base, 'out')
+                return [status, b.is_dir(os.path.join(out, 'sub')),
+                        b.is_file(os.path.join(out, 'sub', 'b.txt')),
+                        [[os.path.relpath(d, base), sorted(ds), sorted(fs)]
+                         for d, ds, fs in b.walk(out)]]
+            return f
+        cache = os.path.join(root, 'c.gz')
+        r1 = FileBuilder.build(cache, 'n', prog(root))
+        r2 = FileBuilder.build(cache, 'n', prog(root))
+        r_ref = FileBuilder.build(os.path.join(ref, 'c.gz'), 'n', prog(ref))
+        tree = sorted(os.path.relpath(p, root) for p in snapshot(root) if p not in (root, cache))
+        tree_ref = sorted(os.path.relpath(p, ref) for p in snapshot(ref)
+                          if p not in (ref, os.path.join(ref, 'c.gz')))
+        if r2 != r_ref or tree != tree_ref:
+            return {'reproduced': True,
+                    'check': 'a reused subtree loses the outputs nested below a raised build_file',
+                    'input': 'gen catches the failure of build_file(out/a.txt), whose function '
+                             'built out/sub/b.txt first; second, unchanged build',
+                    'observed': {'second_build': repr(r2), 'from_scratch': repr(r_ref),
+                                 'tree': tree, 'tree_from_scratch': tree_ref}, 'evaluations': 2}
+    finally:
+        shutil.rmtree(root, ignore_errors=True)
+        shutil.rmtree(ref, ignore_errors=True)
+    return {'reproduced': False, 'evaluations': 2, 'note': repr(seen)}
 
 
 # -------------------------------------------------------------------------------------------------
